@@ -819,10 +819,12 @@ def run(rep, tier):
                         r_ = P(x.get("recv")) if x.get("recv") is not None else ""
                         if "work_items_" in r_:
                             env[T(x)] = pending_empty if callee_short(x) == "empty" else (0 if pending_empty else 5)
-            res = _ew(fn, fn.entry, tree_env=env)
+            res = _ew(fn, fn.entry, tree_env=env, max_paths=2048, limit=4000)
             n14 += 1
             missed = [(evs, end) for evs, end in res if not any(e is conv[0][2] or (e.get("k") == "call" and callee_short(e) == "add_new") for _, _, e in evs) and end in ("return", "exit")]
-            undecided = len(res) > 4
+            # branches the scenario does not decide (logging, wait-time bookkeeping, assertions in debug configurations) are explored both
+            # ways; the scenario is decided when the exploration was complete - every explored path is then judged below
+            undecided = len(res) >= 2048 or any(end in ("limit",) for _, end in res)
             if undecided:
                 raise AnalysisBroken("add_new_always: scenario '%s' not decided (%d paths)" % (name, len(res)))
             if missed:
